@@ -380,3 +380,5 @@ META = {
     'not_decided': 'semantics of user-supplied --regex filters; real length of X1 values (known finding)',
     'technique': 'effect-set rule over the call graph + regex-AST analysis + finite ordering-domain evaluation of the filter kernel',
 }
+
+META['explanation'] += ' ' + 'Further: options reach the filters as given; only supported structures ever enter grammar.txt; record layout of the PCFG files.'
